@@ -20,7 +20,10 @@ META = dict(
          "deviation; all schedules with <= 4 deviations (quick) / <= 5 (thorough). In 8 further slow-reader "
          "configurations (Valet, non-persistent variants only) K reads slowly: every send of the server to K is accepted only "
          "in part (half of the bytes offered), so each service pass ends in a partial send and the response takes longer than T while "
-         "bytes keep moving (<= 3 / <= 4 deviations). An execution ends early once K was removed, "
+         "bytes keep moving (<= 3 / <= 4 deviations). In 6 further fine-grid "
+         "configurations (HTTP/1.1 'Connection: close'; Valet fixed / stream, Porter) the clock choices are +tick (0.125 s), "
+         "+T-tick and +T instead, so that bursts of activity one tick apart are followed by a silence just short of T measured "
+         "from the last byte (<= 3 / <= 4 deviations). An execution ends early once K was removed, "
          "or once K is persistent and quiescent (then the clock is advanced 3T and the server serviced twice more). "
          "Observed: every closeConnection the server performs from its serviceConnects timeout sweep on a connection that was "
          "not cut off (= closed for idleness). Required: such a close happens only if no byte was sent or received on that "
@@ -28,7 +31,8 @@ META = dict(
          "received in an earlier service call; serviceAll never raises.",
     note="Only the 'only if' direction of the statement is judged (an idle connection that is kept is not a violation; drops "
          "that do happen are counted in the outcomes). Outside the slow-reader configurations sends are accepted whole; blocked sends, "
-         "connection loss and handshake faults are C24-C26. Time advances only between service calls, in multiples of 0.2T (exact in floats).",
+         "connection loss and handshake faults are C24-C26. Time advances only between service calls, in multiples of 0.2T, resp. of 0.125 s in the "
+         "fine-grid configurations (all exact in floats); the comparison 'idle < T' is exact.",
 )
 import sys
 
@@ -37,6 +41,8 @@ from mc import core, net, httpharness as hh
 PORT = 8080
 T = 10.0
 ADV = (("+0.4T", 4.0), ("+0.6T", 6.0), ("+T", 10.0))
+TICK = 0.125
+FINE_ADV = (("+tick", TICK), ("+T-tick", T - TICK), ("+T", 10.0))     # "fine" configurations: bursts one tick apart
 TIERS = dict(quick=dict(H=10, bound=4), thorough=dict(H=12, bound=5))
 VARIANTS = ("ka11", "close11", "http10", "ka10")
 PERSISTENT = ("ka11", "ka10")
@@ -147,6 +153,8 @@ class Conn:
 
 
 def execute(ch, server, scheme, variant, kind, slow, H, part, states):
+    # slow: False | True (slow reader) | "fine" (clock choices +tick / +T-tick / +T instead of +0.4T / +0.6T / +T)
+    adv = FINE_ADV if slow == "fine" else ADV
     """One execution -> (list of (kind, what), schedule tokens)"""
     FSM = hh.setup()
     policy = SlowReaderPolicy(ch)
@@ -162,7 +170,7 @@ def execute(ch, server, scheme, variant, kind, slow, H, part, states):
             raise core.BrokenCheck("fake connect failed")
         conns.append(Conn(name, s))
     neighbour, k, latest = conns
-    if slow:                 # K reads slowly: the server's sends to K are accepted in part only
+    if slow is True:         # K reads slowly: the server's sends to K are accepted in part only
         k.sock.peer.menu = net.Menu(send_partial=True)
         policy.slow.add(k.sock.peer.ident)
     closes = []          # (ca, caller, cutoff, clock)
@@ -236,14 +244,14 @@ def execute(ch, server, scheme, variant, kind, slow, H, part, states):
         if sent < len(frs):
             opts.append("send")
         opts.append("idle")
-        opts += [a[0] for a in ADV]
+        opts += [a[0] for a in adv]
         c = ch.choose(len(opts), "env", 0, 1)
         tag = opts[c]
         if tag == "send":
             k.sock.send(frs[sent])
             sent += 1
         elif tag != "idle":
-            ck.advance(dict(ADV)[tag])
+            ck.advance(dict(adv)[tag])
         sched.append(tag)
         if not service(tag):
             break
@@ -286,16 +294,18 @@ def work(cfg):
             if group not in best or rank < best[group][0]:
                 best[group] = (rank, (
                     group,
-                    "%s /%s%s schedule=%s" % (variant, kind, " slow-reader" if slow else "", ",".join(sched)),
+                    "%s /%s%s schedule=%s" % (variant, kind, " fine-ticks" if slow == "fine" else " slow-reader" if slow else "", ",".join(sched)),
                     "%s over %s, timeout %g s, request %s /%s in fragments%s, schedule [%s]: %s"
                     % (server, "TLS" if scheme == "https" else "plain TCP", T, variant, kind,
+                       "" if slow == "fine" else
                        ", client reads slowly (every server send is accepted in part: half of the bytes offered)" if slow else "",
                        ", ".join(sched), what),
                     dict(server=server, scheme=scheme, timeout=T, variant=variant, app=kind, slow_reader=slow,
                          fragments=fragments(variant, kind)[0], schedule=sched, choices=ch.choices, what=what,
                          how="%s(ha=('',8080), timeout=10.0, store=clock[, scheme='https', context=...]) over mc.net doubles; "
                              "connect three raw client sockets N, K, M (in that order); per schedule item: 'send' = K sends its next fragment, "
-                             "'+xT' = clock.advance(x*10), then server.serviceAll()" % server)))
+                             "'+xT' = clock.advance(x*10), '+tick' = clock.advance(0.125), '+T-tick' = clock.advance(9.875), then "
+                             "server.serviceAll()" % server)))
         return None
 
     st = core.dfs(run, bound=bound)
@@ -322,6 +332,11 @@ def configs():
         for scheme in ("http", "https"):
             for kind in (("defer", "echo") if server == "Valet" else ("echo",)):
                 cfgs.append((len(cfgs), server, scheme, ENDING, kind, False))
+    # fine time grid: activity bursts one tick (0.125 s) apart, then silence of T - tick or T
+    for server in ("Valet", "Porter"):
+        for scheme in ("http", "https"):
+            for kind in (("fixed", "stream") if server == "Valet" else ("echo",)):
+                cfgs.append((len(cfgs), server, scheme, "close11", kind, "fine"))
     # slow reader: non-persistent exchanges whose response needs many partial sends
     # (Valet only: Porter removes a non-persistent connection in the pass that queued the response)
     for scheme in ("http", "https"):
@@ -334,13 +349,14 @@ def configs():
 def run():
     ck = core.Check("C28", META["level"], META["technique"])
     cfgs = configs()
-    order = sorted(range(len(cfgs)), key=lambda i: (cfgs[i][5], cfgs[i][3] not in PERSISTENT, cfgs[i][4] != "echo", i))
+    order = sorted(range(len(cfgs)), key=lambda i: (bool(cfgs[i][5]), cfgs[i][3] not in PERSISTENT, cfgs[i][4] != "echo", i))
     hh.merge_best(ck, core.pmap(work, [cfgs[i] for i in order]))
     ck.part.states = len(ck.part.keys)
     tier = TIERS[core.TIER]
     ck.coverage_extra = dict(horizon=tier["H"], deviation_bound=tier["bound"], timeout=T, configurations=len(cfgs),
                              servers=["Valet", "Porter"], transports=["plain", "TLS double"], variants=list(VARIANTS),
-                             apps=["fixed", "stream", "echo"], slow_reader_configurations=sum(1 for c in cfgs if c[5]),
+                             apps=["fixed", "stream", "echo"], slow_reader_configurations=sum(1 for c in cfgs if c[5] is True),
+                             fine_tick_configurations=sum(1 for c in cfgs if c[5] == "fine"), tick=TICK,
                              slow_reader_deviation_bound=tier["bound"] - 1)
     ck.assumptions = [
         "socket and TLS doubles (mc/net.py) instead of real sockets; TLS handshakes succeed at once, sends are accepted whole "
